@@ -12,20 +12,20 @@ chk("C18", "model_checking",
     "explicit-state exploration of op sequences on the real ledger vs map model (DFS + BFS with state hashing)", "§5 C18")
 
 chk("C20", "model_checking",
-    "Explicit-state exploration of signing-request sequences on the real file-backed signer: BFS to a fixpoint over 64 requests x {plain, reload-before, failing-state-write+restart, both} with state hashing (persisted record, in-memory record, released-signature summary), plus unpruned DFS of all sequences of length 2 (all decorations; thorough: length 3 with reloads). Invariant over every signature ever released: one content per height/round/step, no regression, original re-served with original timestamp, signature verifies, record durable before release, nothing released when the write fails.",
-    "Durability below rename(2) is not observable in-process; failing write = missing state directory + restart; secp256k1/tendermint sign-bytes trusted.",
+    "Explicit-state exploration of signing-request sequences on the real file-backed signer: BFS to a fixpoint over 72 requests (64 of the validator's chain, 8 carrying another chain id) x {plain, reload-before, failing-state-write (the signer restarts iff it died), both} with state hashing (persisted record, in-memory record, released-signature summary), plus unpruned DFS of all sequences of length 2 (all decorations; thorough: length 3 with reloads). Invariant over every signature ever released: one content per height/round/step, no regression, original re-served with original timestamp, signature verifies, record durable before release, nothing released when the write fails.",
+    "Durability below rename(2) is not observable in-process; failing write = missing state directory, restart iff the signer panicked; secp256k1/tendermint sign-bytes trusted.",
     "explicit-state exploration of request sequences with reload/write-fault injection on the real signer (BFS to fixpoint + DFS)", "§5 C20")
 
 chk("C01", "model_checking",
-    "Every history within 1 (all slots) / 2 (core slots; thorough: all) deviations of dense default histories, in four genesis variants, is executed on independent replicas (other directory, one of them restarted once; thorough: a third in another OS process) and all consensus-visible responses are compared call by call. Exhaustive in the history dimension, which is where 'only on particular histories' bugs live.",
+    "Every history within 1 (all slots) / 2 (core slots; thorough: all) deviations of dense default histories, in six genesis/history variants (incl. four proposals applying together and twenty unbonding stakes of which twelve mature in one block), is executed on independent replicas whose responses AND final committed state are compared (other directory, one of them restarted once; thorough: a third in another OS process) and all consensus-visible responses are compared call by call. Exhaustive in the history dimension, which is where 'only on particular histories' bugs live.",
     "Map-iteration order is exercised on every history but sampled, not enumerated; harness feeds byte-identical requests.",
     "deviation-bounded exhaustive history exploration on the real app, twin-replica differential oracle", "§5 C01")
 chk("C05", "model_checking",
-    "49 failing templates (one per failure reason x type, incl. 256-bit boundary amounts and balance-covers-amount-but-not-fee senders) inserted at EVERY position of the dense history in three genesis variants (thorough: all ordered pairs); the replica with the insertion must agree with the one without on every later response and on the complete committed state.",
+    "53 failing templates (one per failure reason x type, incl. templates whose first field is acceptable and a later one is not, incl. 256-bit boundary amounts and balance-covers-amount-but-not-fee senders) inserted at EVERY position of the dense history in three genesis variants (thorough: all ordered pairs); the replica with the insertion must agree with the one without on every later response and on the complete committed state.",
     "Empty account records materialised for a looked-up receiver are ignored (not a change of balance/nonce/doc); app hash not compared.",
     "exhaustive insertion of failing transactions at every position, twin oracle over the full state", "§5 C05")
 chk("C06", "model_checking",
-    "Schedule exploration at ABCI-call granularity: every placement of 1 injected CheckTx/Query (23-call menu) into every gap of the dense history (2 genesis variants, one with the stake limiter live) and every pair of state-touching CheckTx placements (quick: nearby gaps; thorough: all); the loaded replica's DeliverTx/EndBlock/Commit responses must equal the quiet replica's and the mempool overlays must be empty after each commit.",
+    "Schedule exploration at ABCI-call granularity: every placement of 1 injected CheckTx/Query (30-call menu; responses and every height's complete committed state compared) into every gap of the dense history (2 genesis variants, one with the stake limiter live) and every pair of state-touching CheckTx placements (quick: nearby gaps; thorough: all); the loaded replica's DeliverTx/EndBlock/Commit responses must equal the quiet replica's and the mempool overlays must be empty after each commit.",
     "ABCI calls are mutually atomic (single client mutex) - assumed here, validated by a separate race pass.",
     "preemption-bounded schedule exploration of injected CheckTx/Query calls, twin oracle", "§5 C06")
 chk("C07", "model_checking",
@@ -39,8 +39,8 @@ chk("C08", "fault_enumeration",
     "exhaustive crash-point enumeration via write hooks + directory snapshots, recovery compared with never-crashed twin", "§5 C08")
 
 chk("C09", "model_checking",
-    "Bounded-exhaustive enumeration of an input grammar against the real application at two states, through CheckTx and DeliverTx (mid-block) and Query: all byte strings of length <= 2; every prefix, single-bit flip and 00/7f/80/ff substitution of valid encodings of 10 base transactions; re-signed envelopes with every single and every ordered pair of ~90 hostile field values; a 12x11x8 Query grid plus a vm_call grid (senders x 14 targets incl. the precompiles x payloads x heights) under the production RPC environment; delayed consequences (26 hostile-but-accepted governance option documents proposed, voted through, applied, followed by busy blocks); every single deviation of the shared history families (any panicking ABCI call). Oracle: every call returns (recovered panic or dead worker = violation) and a following well-formed transfer and block succeed.",
-    "The claim is the enumerated grammar, not all byte strings; balances bounded by the harness genesis.",
+    "Bounded-exhaustive enumeration of an input grammar against the real application at three states (fresh, after 4 blocks, and - for mempool checks and queries - a node restarted after those blocks that has not executed a block since), incl. a sender that can afford amounts at the limits of the power arithmetic, through CheckTx and DeliverTx (mid-block) and Query: all byte strings of length <= 2; every prefix, single-bit flip and 00/7f/80/ff substitution of valid encodings of 10 base transactions; re-signed envelopes with every single and every ordered pair of ~90 hostile field values; a 12x11x8 Query grid plus a vm_call grid (senders x 14 targets incl. the precompiles x payloads x heights) under the production RPC environment; delayed consequences (26 hostile-but-accepted governance option documents proposed, voted through, applied, followed by busy blocks); every single deviation of the shared history families (any panicking ABCI call). Oracle: every call returns (recovered panic or dead worker = violation) and a following well-formed transfer and block succeed.",
+    "The claim is the enumerated grammar, not all byte strings.",
     "bounded-exhaustive input-grammar enumeration on the real app, no-panic + liveness oracle", "§5 C09")
 
 chk("C02", "model_checking",
@@ -80,15 +80,15 @@ chk("C04", "model_checking",
     "Reference model is result-conditioned; bounded by the menu and the sequence length.",
     "exhaustive enumeration of delivery sequences of concrete signed transactions on the real app, reference model + at-most-once oracle", "§5 C04")
 chk("C19", "model_checking",
-    "For every history of a family (dense in 2 variants, small-stake; every single appended deviation; one restart at every boundary) EVERY query of the universe (7 paths x keys x heights 0..latest+1) is asked at EVERY gap between consensus calls and at the end: answers for a committed height never change (also mid-block, after later blocks, after a restart), agree with the complete state dump of that height, height 0 == latest, latest+1 is an error, and the queried replica's consensus responses equal the quiet replica's.",
+    "For every history of a family (dense in 2 variants, small-stake, a history with below-minimum delegatees and validator-to-validator delegation; 12 pending mempool checks served before the queries of every gap; every single appended deviation; one restart at every boundary) EVERY query of the universe (7 paths x keys x heights 0..latest+1) is asked at EVERY gap between consensus calls and at the end: answers for a committed height never change (also mid-block, after later blocks, after a restart), agree with the complete state dump of that height, height 0 == latest, latest+1 is an error, and the queried replica's consensus responses equal the quiet replica's.",
     "Answers compared after JSON key-order canonicalisation (tendermint's JSON encoder emits map fields in random order - not a different answer); state dumps are validated against the reference model by the other checks; stakes/voting_power is outside the statement's list.",
     "exhaustive (path x key x height x moment) query enumeration over deviation-bounded histories, immutability + state agreement + twin oracle", "§5 C19")
 chk("C03", "model_checking",
-    "(a) For a valid signed transaction of every type (10 bases) every single and every pair of mutations of a ~150-operator menu over the DECODED fields (incl. the narrowed payload integers at +2^31/+2^32/+2^40/+2^62, claimed sender, type relabelling, option lists, every signature byte, chain id in both directions) is delivered with the signature kept: the mutant must fail, the genuine transaction must still succeed afterwards, and the full state must equal the twin that never saw the mutants. (b) Bounded injectivity: over the full product of per-field value menus chosen to collide under any 32/64-bit narrowing (~460k transactions) no two transactions differing in an executed field share a signing pre-image.",
+    "(a) For a valid signed transaction of every type (10 bases) every single and every pair of mutations of a ~150-operator menu over the DECODED fields (incl. the narrowed payload integers at +2^31/+2^32/+2^40/+2^62, claimed sender, type relabelling, option lists, every signature byte, chain id in both directions incl. 11 near variants of the application's own id) is delivered with the signature kept: the mutant must fail, the genuine transaction must still succeed afterwards, and the full state must equal the twin that never saw the mutants. (b) Bounded injectivity: over the full product of per-field value menus chosen to collide under any 32/64-bit narrowing (~460k transactions) no two transactions differing in an executed field share a signing pre-image.",
     "Injectivity is claimed over the enumerated menus; wire-level re-encodings decoding to equal values are not alterations; secp256k1/sha256 trusted.",
     "bounded-exhaustive mutation enumeration with twin oracle + exhaustive bounded pre-image injectivity check", "§5 C03")
 chk("C17", "model_checking",
-    "ALL gadget sequences up to length 3 (quick) / 4 (thorough) over a 23-gadget alphabet (storage, logs, BALANCE of known and never-seen accounts, value-forwarding CALLs to EOA / contract / reverting contract / self, CREATE, CREATE2, CALLVALUE, SELFBALANCE, gas loop, RETURN, REVERT, SELFDESTRUCT to another account / the caller) are deployed and exercised in 4 history families mixing deployments and calls with and without value, plain transfers to the contract and to a child it created, native transfers, staking, proposer-less blocks and a vm_call after every block; every contract transaction runs in lock step on a vanilla go-ethereum StateDB + ApplyMessage world whose balances/nonces are overwritten from the native-ledger model before and copied back after each message. Compared: outcome, return data, gas used, logs per transaction; native balance and nonce of every account of the reference world, code and storage of every contract at every height; vm_call result and read-onlyness. Two genuine defects recorded as known findings (CREATE-made contracts bypassed by plain transfers; self-destructed contracts keep their native record).",
+    "ALL gadget sequences up to length 3 (quick) / 4 (thorough) over a 29-gadget alphabet (block/transaction context, value to the COINBASE, code introspection, DELEGATECALL / STATICCALL and value to a precompile in programs up to length 2, storage, logs, BALANCE of known and never-seen accounts, value-forwarding CALLs to EOA / contract / reverting contract / self, CREATE, CREATE2, CALLVALUE, SELFBALANCE, gas loop, RETURN, REVERT, SELFDESTRUCT to another account / the caller) are deployed and exercised in 4 history families mixing deployments and calls with and without value, plain transfers to the contract and to a child it created, native transfers, staking, proposer-less blocks and a vm_call after every block; every contract transaction runs in lock step on a vanilla go-ethereum StateDB + ApplyMessage world whose balances/nonces are overwritten from the native-ledger model before and copied back after each message. Compared: outcome, return data, gas used, logs per transaction; native balance and nonce of every account of the reference world, code and storage of every contract at every height; vm_call result and read-onlyness. Two genuine defects recorded as known findings (CREATE-made contracts bypassed by plain transfers; self-destructed contracts keep their native record).",
     "go-ethereum interpreter/StateDB/ApplyMessage trusted; storage is read slot-by-slot (slots 0..15), which covers the gadget alphabet.",
     "exhaustive program (gadget-sequence) enumeration x history family, lock-step differential execution against a reference EVM world", "§5 C17")
 
@@ -114,7 +114,7 @@ def main():
         ],
         "checks": [],
         "not_applicable": [],
-        "notes": "All checks: bin/check.sh <id> <tier>. Exit 0 held / 1 VIOLATION / 2 harness error or vacuous run. known_findings.json lists recorded genuine defects (fingerprints) and fixed: entries. seeded/ holds independently written property-breaking changes, mutants/ our own; DESIGN.md §11 records which check catches which.",
+        "notes": "Model checks (C02, C04, C10-C16): every property-specific family also runs with one node restart at deviation level <= 1; histories may contain mempool-only (CheckTx, never delivered) transactions; C12-C15 have 260-block families around height 256. All checks: bin/check.sh <id> <tier>. Exit 0 held / 1 VIOLATION / 2 harness error or vacuous run. known_findings.json lists recorded genuine defects (fingerprints) and fixed: entries. seeded/ holds independently written property-breaking changes, mutants/ our own; DESIGN.md §11 records which check catches which.",
     }
     for pid in ALL:
         if pid in CHECKS:
